@@ -62,7 +62,7 @@ CLAIMS: dict[str, tuple[str, str, str, str]] = {
         'edit API must invalidate cached encodings and propagate size deltas, and encode() must '
         'back-patch sizes before the post-encode fix-ups; the box header reader/writer must agree; '
         'FieldReader.read() results must not be used as values. This is the reader/writer '
-        'agreement that byte-exact round-tripping needs, decided for all inputs. Mp4Atom._invalidate is decided per path: leaving the cache alone implies `_encoded is None`, clearing without recursing implies no parent. The expandable descriptor size is read back as written for sizes on both sides of every seven-bit boundary (R04.9: partial evaluation of writer and reader loops over constants, no repository code runs).',
+        'agreement that byte-exact round-tripping needs, decided for all inputs. Mp4Atom._invalidate is decided per path: leaving the cache alone implies `_encoded is None`, clearing without recursing implies no parent. The expandable descriptor size is read back as written for sizes on both sides of every seven-bit boundary (R04.9: partial evaluation of writer and reader loops over constants, no repository code runs); the raw header kept for a lazily loaded box holds every byte the header parser consumed (R04.10).',
         'Not decided: equality of values (floats, dates), lazy vs eager field equality, the JSON '
         'round trip as a whole, bounded edit sequences. Guard linkages accepted: presence tests on '
         'the writer side (`x is not None`, `\'x\' in _fields`) against any reader-side condition.',
@@ -164,7 +164,7 @@ CLAIMS: dict[str, tuple[str, str, str, str]] = {
         'RFC 4122 bytes_le permutation; generate_content_key interpreted over terms must return '
         'key[i] = A[i]^A[i+16]^B[i]^B[i+16]^C[i]^C[i+16] with A, B, C the digests of (T|K), (T|K|T), '
         '(T|K|T|K), T = seed[:30], K = little-endian key id (agreement of the construction with the '
-        'published key-seed algorithm, not of key bytes). Default locations replace a requested set only for None unless nothing can empty a request (pair rule).',
+        'published key-seed algorithm, not of key bytes). Default locations replace a requested set only for None unless nothing can empty a request (pair rule). The WRMHEADER default KID, key, CHECKSUM and the licence URL default_kid come from one key (R11.7).',
         'Not decided (cryptographic value equality, out of reach of static analysis): computed key '
         'bytes, AES checksum values, PRO parse-back.',
         'DESIGN.md section 4, C11'),
@@ -202,7 +202,7 @@ CLAIMS: dict[str, tuple[str, str, str, str]] = {
         'reduced or clamped expression of that width; the emsg time kwarg set per version is the '
         'field that version encodes and v0 is the delta from the segment start; the event loop '
         'step and every division by the interval sit behind a `interval <= 0` refusal; the '
-        'out-of-band listing enumerates ids 0..count-1 from start in steps of interval. The out-of-band listing is decided by evaluating the listing code over linear forms in start / interval for count 0..4.',
+        'out-of-band listing enumerates ids 0..count-1 from start in steps of interval. The out-of-band listing is decided by evaluating the listing code over linear forms in start / interval for count 0..4. The arms of every alternative of an SCTE-35 encoder have the same length modulo 8 bits (R14.12); a default is not overwritten by the target of the loop that looks for a replacement (R14.11).',
         'Not decided: exactly-once selection of events per segment (boundary arithmetic), CRC '
         'values. Many SCTE-35 codec asymmetries are genuine and recorded as known findings (the '
         'server only emits splice_insert + segmentation descriptor without components).',
@@ -240,7 +240,7 @@ CLAIMS: dict[str, tuple[str, str, str, str]] = {
         'positive step; attributes read from library modules and annotated builtin containers must '
         'exist; int(x, base) on a known int is a definite TypeError; the synthetic-error selection '
         'is by equality, counted only on the addressed branch, and no other literal 5xx exists. Loops that '
-        'read until a sentinel end at end of input (R16.12).',
+        'read until a sentinel end at end of input (R16.12). A payload is peeked at only where its length is positive (R16.16).',
         'Decides explicit error signals, loop progress and definite crashes on resolved edges; not '
         'the absence of implicit Python exceptions (KeyError, AttributeError on None ...), not '
         'response-time bounds. Signals raised inside the MP4 parser are decided at the parser call '
@@ -258,7 +258,7 @@ CLAIMS: dict[str, tuple[str, str, str, str]] = {
         'cleared or re-targeted where its media file is deleted; the columns the property calls '
         'names must carry a uniqueness constraint; replace-on-upload must delete row and file '
         'together. Referential consistency is decided as far as it is a property of schema + '
-        'deletion sites. Bulk DELETE statements only on models that own nothing and that nothing refers to (R17.8). A row that is replaced is looked up by the value its replacement is created with (R17.10).',
+        'deletion sites. Bulk DELETE statements only on models that own nothing and that nothing refers to (R17.8). A row that is replaced is looked up by the value its replacement is created with (R17.10), with nothing stored into that value in between.',
         'Not decided: interleavings of concurrent requests, 200/4xx behaviour of listed streams '
         'after a history, byte-exact serving of uploads. Trusted: SQLAlchemy cascade semantics as '
         'documented; typed-receiver resolution of the call graph.',
@@ -285,7 +285,7 @@ CLAIMS: dict[str, tuple[str, str, str, str]] = {
         'handed to the underlying reader contains the window offset, each tell() is translated '
         'back; every byte string returned by peek/read/readall is bounded by a count clamped to '
         'size - pos when the size is known; every exit of seek implies 0 <= pos <= size; cache '
-        'eviction/insertion keep the counter paired and bucket keys aligned. These are necessary '
+        'eviction/insertion keep the counter paired and bucket keys aligned; seek moves to offset / pos + offset / size + offset before clamping (R20.8); results are byte strings also at the end of the window (R20.9). These are necessary '
         'conditions of slice-equivalence, not the equivalence itself.',
         'Axiom: a known window size is >= 0. Not decided: equality with BytesIO over operation '
         'sequences, LRU choice. Trusted: CPython ast.',
